@@ -1290,9 +1290,9 @@ func regVector() {
 // Scalar helpers exported for other drivers ---------------------------------
 
 // IsNaN32 / IsNaN64 and canonical/arithmetic predicates on bit patterns.
-func IsNaN32(b uint32) bool       { return f32.isNaN(uint64(b)) }
-func IsNaN64(b uint64) bool       { return f64.isNaN(b) }
-func IsCanonNaN32(b uint32) bool  { return f32.isCanon(uint64(b)) }
-func IsCanonNaN64(b uint64) bool  { return f64.isCanon(b) }
-func IsArithNaN32(b uint32) bool  { return f32.isArith(uint64(b)) }
-func IsArithNaN64(b uint64) bool  { return f64.isArith(b) }
+func IsNaN32(b uint32) bool      { return f32.isNaN(uint64(b)) }
+func IsNaN64(b uint64) bool      { return f64.isNaN(b) }
+func IsCanonNaN32(b uint32) bool { return f32.isCanon(uint64(b)) }
+func IsCanonNaN64(b uint64) bool { return f64.isCanon(b) }
+func IsArithNaN32(b uint32) bool { return f32.isArith(uint64(b)) }
+func IsArithNaN64(b uint64) bool { return f64.isArith(b) }
